@@ -9,15 +9,30 @@ Theorems about M-ORM/autoflush (`SaVerif/Model/Autoflush.lean`).
   pending object is present with its values, every modified object's row holds its
   current values, every deleted object's row is gone, everything else is untouched.
 * `flush_flush` — flush is idempotent.
-* `autoflush_query_eq_flush_then_query`, `…_count`, `…_core`, `…_get`, `…_children` —
-  with autoflush enabled each reading operation returns (and leaves the session in)
-  exactly what it returns after an explicit `flush()`.
-* `query_reflects_pending` — the autoflushing query is evaluated over `specDb`.
-* `no_autoflush_sees_db` — with the execution option or inside `no_autoflush` the
-  query is evaluated over the unflushed database.
+* `core_autoflush_precedes_scalar_fast_path`, `core_autoflush_precedes_execute`,
+  `kind_plugin_table` — translator obligations: the ordering facts and the plugin table
+  regenerated from the current orm/session.py / the real statements
+  (`SaVerif/Gen/AutoflushCfg.lean`); `flushes_table` — with them the autoflush decision
+  of `Session._execute_internal` does not depend on the entry point.
+* `autoflush_query_eq_flush_then_query` (for EVERY statement kind — ORM entities, ORM
+  count, Core select / count on the Table, text(), Core exists() over ORM criteria,
+  legacy Query — and EVERY entry point — Session.execute / .scalars / .scalar,
+  Query.all / .first / .one_or_none / .scalar / .count), `…_no_autoflush` (the same read
+  run inside `no_autoflush` after the explicit flush), `…_count`, `…_core`, `…_legacy`,
+  `…_get`, `…_children` — with autoflush enabled each reading operation returns (and
+  leaves the session in) exactly what it returns after an explicit `flush()`.
+* `scalar_eq_head_of_execute`, `scalars_eq_execute`, `first_eq_head_of_all` — in every
+  state Session.scalar(stmt) returns the head (or None) of what Session.execute(stmt)
+  returns, over the same database.
+* `query_reflects_pending` — the autoflushing statement is evaluated over `specDb`.
+* `no_autoflush_sees_db` — inside `no_autoflush`, with Session(autoflush=False), or (ORM
+  statements) with the execution option the statement is evaluated over the unflushed
+  database; `core_ignores_autoflush_option` — a statement without the ORM plugin
+  flushes in spite of the execution option (#9809).
 -/
 namespace SaVerif.Props.C47
 open SaVerif.Autoflush
+open SaVerif.Gen.AutoflushCfg
 
 /-! ## what a flush writes -/
 
@@ -198,40 +213,131 @@ theorem step_flush (c : Cfg) (st st1 : St) (h : doFlush c st = some st1) :
     step c st .flush = (st1, .done) := by
   simp only [step, h]
 
+/-! ## translator obligations: the regenerated facts about `Session._execute_internal` -/
+
+/-- the unconditional Core autoflush (#9809) is called before the `conn.scalar(…)` fast path -/
+theorem core_autoflush_precedes_scalar_fast_path : coreAutoflushBeforeScalarFastPath = true := by decide
+
+theorem core_autoflush_precedes_execute : coreAutoflushBeforeExecute = true := by decide
+
+/-- which statement kinds carry the ORM compile-state plugin (Core `exists()` does not
+    propagate the plugin of its ORM criteria; a legacy `Query` always is an ORM statement) -/
+theorem kind_plugin_table :
+    [Kind.entity, .count, .core, .coreCount, .text, .textCount, .existsSel, .existsDot, .legacy, .legacyCount].map Kind.orm
+      = [true, true, false, false, false, false, false, false, true, true] := by decide
+
+theorem coreCallReached_all (v : Via) : coreCallReached v = true := by
+  cases v <;> simp only [coreCallReached, core_autoflush_precedes_scalar_fast_path, core_autoflush_precedes_execute]
+
+/-- **flushes_table**: the decision table does not depend on the entry point -/
+theorem flushes_table (c : Cfg) (orm : Bool) (v : Via) (m : AfMode) :
+    flushes c orm v m = if orm then (c.af && m == .on) else (c.af && m != .ctxOff) := by
+  simp only [flushes, coreCallReached_all, autoflushOn, coreFlushOn, Bool.and_true]
+
+theorem flushes_on (c : Cfg) (haf : c.af = true) (orm : Bool) (v : Via) : flushes c orm v .on = true := by
+  rw [flushes_table]; cases orm <;> simp [haf]
+
+theorem flushes_ctxOff (c : Cfg) (orm : Bool) (v : Via) : flushes c orm v .ctxOff = false := by
+  rw [flushes_table]; cases orm <;> simp
+
 /-- **autoflush_query_eq_flush_then_query**: autoflush enabled; `st1` is the session
-    after an explicit, successful `flush()` (`step_flush`): the ORM query returns the
-    same rows and leaves the same session state whether or not `flush()` was called
-    first. -/
-theorem autoflush_query_eq_flush_then_query (c : Cfg) (haf : c.af = true) (st st1 : St) (q : Q)
-    (h : doFlush c st = some st1) :
-    step c st (.query q .on) = step c st1 (.query q .on) := by
-  have h2 := afStep_after_flush c (autoflushOn c .on) st st1 h
-  simp only [step, h2]
-  simp only [autoflushOn, haf, afStep, Bool.true_and, beq_self_eq_true, if_true, h]
+    after an explicit, successful `flush()` (`step_flush`): a statement of ANY kind run
+    through ANY entry point returns the same result and leaves the same session state
+    whether or not `flush()` was called first. -/
+theorem autoflush_query_eq_flush_then_query (c : Cfg) (haf : c.af = true) (st st1 : St)
+    (k : Kind) (v : Via) (q : Q) (h : doFlush c st = some st1) :
+    step c st (.read k v q .on) = step c st1 (.read k v q .on) := by
+  have hf := flushes_on c haf k.orm v
+  have h2 := afStep_after_flush c true st st1 h
+  simp only [step, hf, h2]
+  simp only [afStep, if_true, h]
+
+/-- the property verbatim (the harness' twin run): explicit `flush()`, then the same
+    statement through the same entry point inside `no_autoflush` -/
+theorem autoflush_query_eq_flush_then_query_no_autoflush (c : Cfg) (haf : c.af = true) (st st1 : St)
+    (k : Kind) (v : Via) (q : Q) (h : doFlush c st = some st1) :
+    step c st (.read k v q .on) = step c st1 (.read k v q .ctxOff) := by
+  have hf := flushes_on c haf k.orm v
+  have hc := flushes_ctxOff c k.orm v
+  simp only [step, hf, hc]
+  simp only [afStep, if_true, h, Bool.false_eq_true, if_false]
 
 theorem autoflush_count_eq_flush_then_count (c : Cfg) (haf : c.af = true) (st st1 : St) (q : Q)
     (h : doFlush c st = some st1) :
-    step c st (.count q .on) = step c st1 (.count q .on) := by
-  have h2 := afStep_after_flush c (autoflushOn c .on) st st1 h
-  simp only [step, h2]
-  simp only [autoflushOn, haf, afStep, Bool.true_and, beq_self_eq_true, if_true, h]
+    step c st (.count q .on) = step c st1 (.count q .on) :=
+  autoflush_query_eq_flush_then_query c haf st st1 .count .execute q h
 
 theorem autoflush_core_eq_flush_then_core (c : Cfg) (haf : c.af = true) (st st1 : St) (q : Q)
     (h : doFlush c st = some st1) :
-    step c st (.core q .on) = step c st1 (.core q .on) := by
-  have h2 := afStep_after_flush c (coreFlushOn c .on) st st1 h
-  simp only [step, h2]
-  have : coreFlushOn c .on = true := by simp [coreFlushOn, haf]
-  simp only [this, afStep, if_true, h]
+    step c st (.core q .on) = step c st1 (.core q .on) :=
+  autoflush_query_eq_flush_then_query c haf st st1 .core .execute q h
 
 /-- a legacy `Query` made of Table columns / SQL functions only (no ORM entity) -/
 theorem autoflush_legacy_eq_flush_then_legacy (c : Cfg) (haf : c.af = true) (st st1 : St) (q : Q)
     (h : doFlush c st = some st1) :
     step c st (.legacy q .on) = step c st1 (.legacy q .on) ∧
-    step c st (.legacyCount q .on) = step c st1 (.legacyCount q .on) := by
-  have h2 := afStep_after_flush c (autoflushOn c .on) st st1 h
-  simp only [step, h2]
-  simp only [autoflushOn, haf, afStep, Bool.true_and, beq_self_eq_true, if_true, h, and_self]
+    step c st (.legacyCount q .on) = step c st1 (.legacyCount q .on) :=
+  ⟨autoflush_query_eq_flush_then_query c haf st st1 .legacy .qAll q h,
+   autoflush_query_eq_flush_then_query c haf st st1 .legacyCount .qOne q h⟩
+
+/-! ## entry points agree -/
+
+/-- what `Session.scalar` keeps of a result list -/
+def headOut : Out → Out
+  | .list l => .one l.head?
+  | o => o
+
+theorem resultOf_loadInto (st : St) (t t' : Nat) (ids ids' : List Nat) :
+    resultOf (loadInto st t ids) t' ids' = resultOf st t' ids' := by
+  unfold resultOf
+  apply List.map_congr_left
+  intro i _
+  simp only [loadInto]
+  by_cases hc : t' = t ∧ ids.contains i = true
+  · simp only [hc, and_self, if_true]
+    cases st.objs ⟨t, i⟩ <;> cases st.db ⟨t, i⟩ <;> rfl
+  · simp only [hc, if_false]
+
+theorem loadFor_db (k : Kind) (v : Via) (st : St) (t : Nat) (ids : List Nat) :
+    (loadFor k v st t ids).db = st.db ∧ (loadFor k v st t ids).new = st.new := by
+  unfold loadFor
+  cases k.shape <;> simp [loadInto]
+
+/-- the values handed out do not depend on which of the loaded entities stay referenced -/
+theorem values_loadFor (k : Kind) (v : Via) (st : St) (t : Nat) (ids : List Nat) :
+    values k (loadFor k v st t ids) t ids = values k st t ids := by
+  unfold values loadFor
+  cases k.shape <;> simp only [resultOf_loadInto]
+
+/-- **scalar_eq_head_of_execute**: in every state, for every statement kind and mode,
+    `Session.scalar(stmt)` returns the first element (or None) of what
+    `Session.execute(stmt)` returns, and both leave the same database and pending list. -/
+theorem scalar_eq_head_of_execute (c : Cfg) (st : St) (k : Kind) (q : Q) (m : AfMode) :
+    (step c st (.read k .scalar q m)).2 = headOut (step c st (.read k .execute q m)).2 ∧
+    (step c st (.read k .scalar q m)).1.db = (step c st (.read k .execute q m)).1.db ∧
+    (step c st (.read k .scalar q m)).1.new = (step c st (.read k .execute q m)).1.new := by
+  have hf : flushes c k.orm .scalar m = flushes c k.orm .execute m := by
+    rw [flushes_table, flushes_table]
+  simp only [step, hf]
+  cases afStep c (flushes c k.orm .execute m) st with
+  | none => exact ⟨rfl, rfl, rfl⟩
+  | some st1 =>
+    simp only [values_loadFor, consume, headOut, loadFor_db, and_self]
+
+/-- `Session.scalars(stmt)` is `Session.execute(stmt).scalars()` -/
+theorem scalars_eq_execute (c : Cfg) (st : St) (k : Kind) (q : Q) (m : AfMode) :
+    step c st (.read k .scalars q m) = step c st (.read k .execute q m) := by
+  rfl
+
+/-- `Query.first()` returns the head (or None) of `Query.all()` -/
+theorem first_eq_head_of_all (c : Cfg) (st : St) (k : Kind) (q : Q) (m : AfMode) :
+    (step c st (.read k .qFirst q m)).2 = headOut (step c st (.read k .qAll q m)).2 := by
+  have hf : flushes c k.orm .qFirst m = flushes c k.orm .qAll m := by
+    rw [flushes_table, flushes_table]
+  simp only [step, hf]
+  cases afStep c (flushes c k.orm .qAll m) st with
+  | none => rfl
+  | some st1 => simp only [values_loadFor, consume, headOut]
 
 /-- lazy load of `P.children` on a persistent, not deleted parent -/
 theorem autoflush_children_eq_flush_then_children (c : Cfg) (haf : c.af = true) (st st1 : St) (p : Nat)
@@ -273,30 +379,39 @@ theorem get_pending_found (c : Cfg) (haf : c.af = true) (st st1 : St) (k : Key) 
       simp only [objsAfter, hnew]
   simp only [step, habs, autoflushOn, haf, afStep, Bool.true_and, beq_self_eq_true, if_true, h, hobj]
 
-/-- **query_reflects_pending**: the autoflushing query is evaluated over the database
-    the pending state describes -/
-theorem query_reflects_pending (c : Cfg) (haf : c.af = true) (st st1 : St) (q : Q)
+/-- **query_reflects_pending**: the autoflushing statement — any kind, any entry point —
+    is evaluated over the database the pending state describes -/
+theorem query_reflects_pending (c : Cfg) (haf : c.af = true) (st st1 : St) (k : Kind) (v : Via) (q : Q)
     (hw : hasWork c st = true) (h : doFlush c st = some st1) :
-    (step c st (.query q .on)).2 =
-      .rows (resultOf (loadInto st1 (evalQ c.n (specDb st) q).1 (evalQ c.n (specDb st) q).2)
-                      (evalQ c.n (specDb st) q).1 (evalQ c.n (specDb st) q).2) := by
+    (step c st (.read k v q .on)).2 =
+      consume v (values k st1 (evalQ c.n (specDb st) q).1 (evalQ c.n (specDb st) q).2) := by
   have hdb := (flush_eq_spec c st st1 hw h).1
-  simp only [step, autoflushOn, haf, afStep, Bool.true_and, beq_self_eq_true, if_true, h, hdb]
+  have hf := flushes_on c haf k.orm v
+  simp only [step, hf, afStep, if_true, h, hdb, values_loadFor]
 
-/-- **no_autoflush_sees_db**: execution option `autoflush=False`, `no_autoflush`, or a
-    Session created with `autoflush=False`: no flush, the query runs on the database
-    as it is -/
-theorem no_autoflush_sees_db (c : Cfg) (st : St) (q : Q) (m : AfMode)
-    (hoff : c.af = false ∨ m ≠ .on) :
-    (step c st (.query q m)).2 =
-      .rows (resultOf (loadInto st (evalQ c.n st.db q).1 (evalQ c.n st.db q).2)
-                      (evalQ c.n st.db q).1 (evalQ c.n st.db q).2) := by
-  have : autoflushOn c m = false := by
-    unfold autoflushOn
-    rcases hoff with h | h
+/-- **no_autoflush_sees_db**: inside `no_autoflush`, with a Session created with
+    `autoflush=False`, or — for a statement with the ORM plugin — with the execution
+    option `autoflush=False`: no flush, the statement runs on the database as it is -/
+theorem no_autoflush_sees_db (c : Cfg) (st : St) (k : Kind) (v : Via) (q : Q) (m : AfMode)
+    (hoff : c.af = false ∨ m = .ctxOff ∨ (k.orm = true ∧ m ≠ .on)) :
+    (step c st (.read k v q m)).2 =
+      consume v (values k st (evalQ c.n st.db q).1 (evalQ c.n st.db q).2) := by
+  have hf : flushes c k.orm v m = false := by
+    rw [flushes_table]
+    rcases hoff with h | h | ⟨ho, h⟩
     · simp [h]
-    · cases m <;> simp_all
-  simp only [step, this, afStep, Bool.false_eq_true, if_false]
+    · subst h; cases k.orm <;> simp
+    · rw [ho]; cases m <;> simp_all
+  simp only [step, hf, afStep, Bool.false_eq_true, if_false, values_loadFor]
+
+/-- a statement without the ORM plugin has no autoflush execution option (#9809): it
+    flushes exactly as without the option -/
+theorem core_ignores_autoflush_option (c : Cfg) (st : St) (k : Kind) (v : Via) (q : Q)
+    (hk : k.orm = false) :
+    step c st (.read k v q .optOff) = step c st (.read k v q .on) := by
+  have hf : flushes c k.orm v .optOff = flushes c k.orm v .on := by
+    rw [flushes_table, flushes_table, hk]; rfl
+  simp only [step, hf]
 
 /-! ## non-vacuity -/
 
@@ -307,14 +422,45 @@ example :
                       .query (.all 1) .on, .setA ⟨1, 0⟩ 2, .del ⟨1, 1⟩, .add ⟨1, 2⟩ ⟨2, some 0⟩,
                       .query (.byA 1 2) .optOff, .query (.byA 1 2) .on, .count (.byPid 0) .on,
                       .children 0 .on] =
-      [.done, .done, .done, .done, .rows [(0, 1), (1, 2)], .done, .done, .done,
-       .rows [(1, 2)], .rows [(0, 2), (2, 2)], .num 2, .rows [(0, 2), (2, 2)]] := by decide
+      [.done, .done, .done, .done, .list [.ent 0 1, .ent 1 2], .done, .done, .done,
+       .list [.ent 1 2], .list [.ent 0 2, .ent 2 2], .list [.num 2], .list [.ent 0 2, .ent 2 2]] := by decide
 
-/-- hypotheses of `autoflush_query_eq_flush_then_query` are satisfiable with work pending -/
+/-- the entry points and the plugin-less kinds on one pending state (row C0 modified, C1
+    deleted, C2 added): `Session.scalar` of a Core count / text / exists statement is the
+    first statement after the changes and sees all of them; with `no_autoflush` it does not -/
+example :
+    let c : Cfg := ⟨3, true⟩
+    let pre : List Op := [.add ⟨0, 0⟩ ⟨1, none⟩, .add ⟨1, 0⟩ ⟨1, some 0⟩, .add ⟨1, 1⟩ ⟨2, some 0⟩, .commit,
+                          .query (.all 1) .on, .setA ⟨1, 0⟩ 2, .del ⟨1, 1⟩, .add ⟨1, 2⟩ ⟨2, some 0⟩]
+    (runOut c St.init (pre ++ [.read .coreCount .scalar (.byA 1 2) .on])).getLast? = some (.one (some (.num 2))) ∧
+    (runOut c St.init (pre ++ [.read .coreCount .scalar (.byA 1 2) .ctxOff])).getLast? = some (.one (some (.num 1))) ∧
+    (runOut c St.init (pre ++ [.read .coreCount .scalar (.byA 1 2) .optOff])).getLast? = some (.one (some (.num 2))) ∧
+    (runOut c St.init (pre ++ [.read .count .scalar (.byA 1 2) .optOff])).getLast? = some (.one (some (.num 1))) ∧
+    (runOut c St.init (pre ++ [.read .text .scalar (.byA 1 2) .on])).getLast? = some (.one (some (.id 0))) ∧
+    (runOut c St.init (pre ++ [.read .text .scalars (.byA 1 2) .on])).getLast? = some (.list [.id 0, .id 2]) ∧
+    (runOut c St.init (pre ++ [.read .existsSel .scalar (.byA 1 1) .on])).getLast? = some (.one (some (.flag false))) ∧
+    (runOut c St.init (pre ++ [.read .existsDot .scalar (.byA 1 1) .ctxOff])).getLast? = some (.one (some (.flag true))) ∧
+    (runOut c St.init (pre ++ [.read .entity .scalar (.byA 1 2) .on])).getLast? = some (.one (some (.ent 0 2))) ∧
+    (runOut c St.init (pre ++ [.read .entity .scalar (.byA 1 7) .on])).getLast? = some (.one none) ∧
+    (runOut c St.init (pre ++ [.read .legacy .qFirst (.byA 1 2) .on])).getLast? = some (.one (some (.id 0))) ∧
+    (runOut c St.init (pre ++ [.read .legacy .qOne (.byA 1 2) .on])).getLast? = some .multi ∧
+    (runOut c St.init (pre ++ [.read .legacy .qCount (.byA 1 2) .on])).getLast? = some (.one (some (.num 2))) := by decide
+
+/-- hypotheses of `autoflush_query_eq_flush_then_query` are satisfiable with work pending,
+    and its conclusion is not trivial: without the flush the scalar differs -/
 example :
     let c : Cfg := ⟨2, true⟩
     let st := run c St.init [.add ⟨0, 0⟩ ⟨1, none⟩, .commit, .setA ⟨0, 0⟩ 5, .add ⟨0, 1⟩ ⟨5, none⟩]
     hasWork c st = true ∧ (doFlush c st).isSome = true ∧
-    (step c st (.query (.byA 0 5) .on)).2 = .rows [(0, 5), (1, 5)] := by decide
+    (step c st (.query (.byA 0 5) .on)).2 = .list [.ent 0 5, .ent 1 5] ∧
+    (step c st (.read .coreCount .scalar (.byA 0 5) .on)).2 = .one (some (.num 2)) ∧
+    (step c st (.read .coreCount .scalar (.byA 0 5) .ctxOff)).2 = .one (some (.num 0)) := by decide
+
+/-- `scalar_eq_head_of_execute` on a state with pending work: both sides are `some 1` -/
+example :
+    let c : Cfg := ⟨2, true⟩
+    let st := run c St.init [.add ⟨0, 0⟩ ⟨1, none⟩, .commit, .setA ⟨0, 0⟩ 5, .add ⟨0, 1⟩ ⟨5, none⟩]
+    (step c st (.read .text .execute (.byA 0 5) .on)).2 = .list [.id 0, .id 1] ∧
+    (step c st (.read .text .scalar (.byA 0 5) .on)).2 = .one (some (.id 0)) := by decide
 
 end SaVerif.Props.C47
